@@ -163,6 +163,8 @@ def slice_generator(data, axis=0):
     """
     data = np.asarray(data)
     if type(axis) is int:
+        if axis < 0:
+            axis += data.ndim
         for j in range(data.shape[axis]):
             ij = (slice(None,None,None),)*axis + (j,)
             yield ij, data[(slice(None,None,None),)*axis + (j,)]
